@@ -60,6 +60,10 @@ type IndexedState struct {
 
 	cachedRules map[string]*Rule
 
+	// cacheMu guards cachedRules, which readers (who only hold the
+	// state's read lock) fill.
+	cacheMu sync.Mutex
+
 	addHook AddHookFn
 
 	remHook RemHookFn
@@ -265,7 +269,7 @@ func extractTermsAux(ctx *Context, x interface{}, terms StringSet, depth int) {
 func (s *IndexedState) Add(ctx *Context, id string, x Map) (string, error) {
 	Log(DEBUG, ctx, "IndexedState.Add", "state", s.Name, "factx", x, "id", id)
 	s.slock(ctx, false)
-	delete(s.cachedRules, id)
+	s.uncacheRule(id)
 	id, err := s.add(ctx, id, x)
 	var js []byte
 	if err == nil {
@@ -437,7 +441,7 @@ func (s *IndexedState) Rem(ctx *Context, id string) (bool, error) {
 
 func (s *IndexedState) rem(ctx *Context, id string) (bool, error) {
 	Log(DEBUG, ctx, "IndexedState.rem", "name", s.Name, "id", id)
-	delete(s.cachedRules, id)
+	s.uncacheRule(id)
 
 	// Currently we don't return an error if the fact isn't found.
 	// ToDo: Reconsider.  For example, maybe have an additional
@@ -527,7 +531,7 @@ func (s *IndexedState) Clear(ctx *Context) error {
 	s.slock(ctx, false)
 	defer s.sunlock(ctx, false)
 
-	s.cachedRules = make(map[string]*Rule)
+	s.uncacheRules()
 	if err := s.remHooks(ctx); err != nil {
 		return err
 	}
@@ -545,7 +549,7 @@ func (s *IndexedState) Delete(ctx *Context) error {
 	s.slock(ctx, false)
 	defer s.sunlock(ctx, false)
 
-	s.cachedRules = make(map[string]*Rule)
+	s.uncacheRules()
 	if err := s.remHooks(ctx); err != nil {
 		return err
 	}
@@ -720,7 +724,25 @@ func (s *IndexedState) FindRules(ctx *Context, event Map) (map[string]Map, error
 func (s *IndexedState) doFindRules(ctx *Context, event Map) (map[string]Map, error) {
 	s.slock(ctx, true)
 	defer s.sunlock(ctx, true)
+	return s.findRules(ctx, event)
+}
 
+// uncacheRule forgets the cached rule (if any) for the given id.
+func (s *IndexedState) uncacheRule(id string) {
+	s.cacheMu.Lock()
+	delete(s.cachedRules, id)
+	s.cacheMu.Unlock()
+}
+
+// uncacheRules forgets all cached rules.
+func (s *IndexedState) uncacheRules() {
+	s.cacheMu.Lock()
+	s.cachedRules = make(map[string]*Rule)
+	s.cacheMu.Unlock()
+}
+
+// findRules does the work for doFindRules.  Assumes a read lock.
+func (s *IndexedState) findRules(ctx *Context, event Map) (map[string]Map, error) {
 	acc := make(map[string]Map)
 	ss, err := s.RuleIndex.SearchPatternsMap(ctx, map[string]interface{}(event))
 	if err != nil {
@@ -774,15 +796,24 @@ func (s *IndexedState) FindCachedRules(ctx *Context, event Map) (map[string]*Rul
 	timer := NewTimer(ctx, "IndexedState.FindCachedRules")
 	defer timer.Stop()
 
-	rules, err := s.doFindRules(ctx, event)
+	// We keep the read lock while we consult and fill the cache.  A
+	// writer, which needs the write lock to change a rule and to
+	// drop its cache entry, therefore can't slip in between our
+	// reading a rule and our caching it.
+	s.slock(ctx, true)
+	defer s.sunlock(ctx, true)
+
+	rules, err := s.findRules(ctx, event)
 	if err != nil {
 		return nil, err
 	}
 
 	acc := make(map[string]*Rule)
+	s.cacheMu.Lock()
+	defer s.cacheMu.Unlock()
 	for id, r := range rules {
-		if _, isCached := s.cachedRules[id]; isCached {
-			acc[id] = s.cachedRules[id]
+		if cached, isCached := s.cachedRules[id]; isCached {
+			acc[id] = cached
 		} else {
 			rule, err := RuleFromMap(ctx, r)
 			if err != nil {
